@@ -316,7 +316,8 @@ fn main() {
     }
     // ---- (c) len() of Bloom filters ----------------------------------------------------------
     let mut lrows = vec![];
-    for &(n, p) in &[(1000usize, 0.01), (2000, 0.05), (5000, 0.01), (3000, 0.001)] {
+    // k = 1 (p > 0.25), 2, 3 and larger k: the occupancy estimator must work for every k
+    for &(n, p) in &[(1000usize, 0.01), (2000, 0.05), (5000, 0.01), (3000, 0.001), (2000, 0.3), (4000, 0.45), (1500, 0.6), (3000, 0.2), (2500, 0.1)] {
         let mut worst = 0.0f64;
         for s in 0..8u64 {
             let mut f = BloomFilter::<Key, _>::with_properties_and_hash(n, p, hybrid(s, 1, false));
